@@ -592,21 +592,20 @@ func c12Register(c *Ctx, la *lockAnalysis) {
 	c.check(noUnlock, rule, fnName(fn)+": no Unlock between the section's Lock and the append", c.pos(lock), "single critical section", "the lock is dropped between the duplicate scan and the append")
 	// the duplicate scan inside this section iterates a slice loaded from Store.dbs after the Lock
 	ok := false
-	for _, b := range fn.Blocks {
-		for _, in := range b.Instrs {
-			call, isCall := in.(*ssa.Call)
-			if !isCall || calleeName(call) != "builtin:len" {
-				continue
-			}
-			x := call.Call.Args[0]
-			if !dominates(lock, call) || !b.Dominates(appendSt.Block()) {
-				continue
-			}
-			// x must be a load of Store.dbs performed after the Lock
-			if u, isU := x.(*ssa.UnOp); isU {
-				if fa, isFA := u.X.(*ssa.FieldAddr); isFA && fieldAddrName(fa) == "Store.dbs" && dominates(lock, u) {
-					ok = true
-				}
+	for _, vs := range sitesV(fn, func(in ssa.Instruction) bool {
+		call, isCall := in.(*ssa.Call)
+		return isCall && calleeName(call) == "builtin:len"
+	}) {
+		call := vs.In.(*ssa.Call)
+		x := call.Call.Args[0]
+		at := vs.At()
+		if !dominates(lock, at) || !(at.Block() == appendSt.Block() || at.Block().Dominates(appendSt.Block())) {
+			continue
+		}
+		// x must be a load of Store.dbs performed after the Lock
+		if u, isU := x.(*ssa.UnOp); isU {
+			if fa, isFA := u.X.(*ssa.FieldAddr); isFA && fieldAddrName(fa) == "Store.dbs" && (len(vs.Ctx) > 0 || dominates(lock, u)) {
+				ok = true
 			}
 		}
 	}
